@@ -651,6 +651,8 @@ pub fn build_handmade(parts: &BTreeMap<String, Sx>) -> (Machine, Module) {
     let fact_defs: Vec<FactDef> = get("factdefs").args().iter().map(|d| { let d = d.list(); FactDef { name: ident(&d[0]), key: fields(d[1].list()), value: fields(d[2].list()), immutable: false } }).collect();
     let action_defs: Vec<ActionDef> = get("actiondefs").args().iter().map(|d| { let d = d.list(); ActionDef { name: ident(&d[0]), persistence: Persistence::Persistent, params: fields(&d[1..]), result_type: TypeKind::Unit } }).collect();
     let command_defs: Vec<CommandDef> = get("commanddefs").args().iter().map(|d| { let d = d.list(); CommandDef { name: ident(&d[0]), persistence: Persistence::Persistent, attributes: vec![], fields: fields(&d[1..]) } }).collect();
+    // optional: (enumdefs (Name (Variant N)..)..)
+    let enum_defs: Vec<EnumDef> = parts.get("enumdefs").map(|p| p.args().iter().map(|d| { let d = d.list(); EnumDef { name: ident(&d[0]), variants: d[1..].iter().map(|v| (ident(&v.list()[0]), v.list()[1].atom().parse().unwrap())).collect() } }).collect()).unwrap_or_default();
     for g in get("globals").args() {
         m.globals.insert(ident(&g.list()[0]), constvalue(&g.list()[1]));
     }
@@ -666,7 +668,7 @@ pub fn build_handmade(parts: &BTreeMap<String, Sx>) -> (Machine, Module) {
             command_defs: command_defs.clone(),
             fact_defs: fact_defs.clone(),
             struct_defs: struct_defs.clone(),
-            enum_defs: vec![],
+            enum_defs: enum_defs.clone(),
             codemap: m.codemap.clone(),
             globals: m.globals.clone(),
         }),
@@ -675,6 +677,7 @@ pub fn build_handmade(parts: &BTreeMap<String, Sx>) -> (Machine, Module) {
     for d in fact_defs { m.fact_defs.insert(d); }
     for d in action_defs { m.action_defs.insert(d); }
     for d in command_defs { m.command_defs.insert(d); }
+    for d in enum_defs { m.enum_defs.insert(d); }
     (m, module)
 }
 pub fn parts_of(line: &str) -> BTreeMap<String, Sx> {
